@@ -116,6 +116,27 @@ def set_market_status(self, data, price):
     self.has_update = False
 '''
 
+REF_TO_DATAFRAME = """
+def to_dataframe(status_list):
+    stamps = [s.timestamp for s in status_list]
+    if len(stamps) == 0:
+        return pd.DataFrame()
+    frames = [pd.DataFrame(index=stamps, data=[s.net_value for s in status_list],
+                           columns=pd.MultiIndex.from_tuples([("net_value", "")], names=["l1", "l2"]))]
+    balances = [s.asset_balances.data for s in status_list]
+    names = {t: t.name for t in balances[0].keys()}
+    wallet = pd.DataFrame(index=stamps, data=balances)
+    wallet.rename(columns=names, inplace=True)
+    to_multi_index_df(wallet, "tokens")
+    frames.append(wallet)
+    for key in status_list[0].market_status.keys():
+        mdf = pd.DataFrame(index=stamps, data=[s.market_status[key] for s in status_list])
+        to_multi_index_df(mdf, key.name)
+        frames.append(mdf)
+    return pd.concat(frames, axis=1)
+"""
+
+
 REF_GEN_DF = '''
 def _generate_account_status_df(self):
     self._account_status_df = AccountStatus.to_dataframe(self._account_status_list)
@@ -266,14 +287,10 @@ def run(model, tier="quick"):
                   ["to_multi_index_df"], ordered=True, opaque=["to_dataframe"])
     write_func_rule(model, res)
     res.floor("resample_implementations", resample_siblings(model, res), 6)
-    # to_dataframe indexes by each status' own timestamp
-    td = model.func("AccountStatus.to_dataframe")
-    idx = [s for s in ast.walk(td.node) if isinstance(s, ast.Assign) and ast.unparse(s.targets[0]) == "index"]
-    ok = bool(idx) and ast.unparse(idx[0].value).replace(" ", "") == "[i.timestampforiinstatus_list]"
-    res.ob("R-RECORD", "account history rows are indexed by each status' own timestamp", td.loc(), ok=ok)
-    if not ok:
-        res.find("R-RECORD", "AccountStatus.to_dataframe", "history index is not the statuses' timestamps", td.loc(),
-                 "the account history must carry one row per bar indexed by that bar's timestamp")
+    # to_dataframe: one row per status under that status' own timestamp; net value, wallet and every market's columns
+    effects_check(res, model, "AccountStatus.to_dataframe", REF_TO_DATAFRAME,
+                  "account history frame: rows indexed by each status' own timestamp; net value, token balances, then one "
+                  "block of columns per market, concatenated column-wise", ["to_multi_index_df", "rename"], ordered=True)
     from ..rules.alias import loop_sharing_rule
     res.units["objects_built_before_a_loop_and_passed_inside"] = loop_sharing_rule(model, res, scope=() if res.prop == "C19" else ("demeter/core/", "demeter/broker/"))
     from ..rules.fresh import fresh_rule
